@@ -128,18 +128,28 @@ theorem valueEq_convOneWay_not_symm :
 def justBelow : XRat := ⟨2 ^ 53 - 1, 2 ^ 53⟩
 def justAbove : XRat := ⟨2 ^ 52 + 1, 2 ^ 52⟩
 
-/-- REFUTATION (flag `mapEqOneSided`, the code since commit 001310e): "same length and every
+/-- REFUTATION (flag `mapEqOneSided`, the code between commits 001310e and 3dd7990): "same length and every
 entry of the left map has an `==` entry in the right one" is not symmetric, because `==` on
 numbers is not transitive: `(0.9999999999999999: x, 1.0000000000000002: x) == (1: x, 5: x)`
 is true and the reverse is false.  The specification (inclusion both ways) says false twice. -/
 theorem mapEq_oneSided_not_symm :
-    V.eq asis env0 (.map [(.num justBelow 0, .tt), (.num justAbove 0, .tt)])
+    V.eq { mapEqOneSided := true } env0 (.map [(.num justBelow 0, .tt), (.num justAbove 0, .tt)])
         (.map [(.num one 0, .tt), (.num ⟨5, 1⟩ 0, .tt)]) = true
-    ∧ V.eq asis env0 (.map [(.num one 0, .tt), (.num ⟨5, 1⟩ 0, .tt)])
+    ∧ V.eq { mapEqOneSided := true } env0 (.map [(.num one 0, .tt), (.num ⟨5, 1⟩ 0, .tt)])
         (.map [(.num justBelow 0, .tt), (.num justAbove 0, .tt)]) = false
     ∧ V.eq Val.spec env0 (.map [(.num justBelow 0, .tt), (.num justAbove 0, .tt)])
         (.map [(.num one 0, .tt), (.num ⟨5, 1⟩ 0, .tt)]) = false
     ∧ V.eq Val.spec env0 (.num justBelow 0) (.num justAbove 0) = false := by
+  decide +kernel
+
+/-- REFUTATION (flag `strEqSameQuotesRaw`, css/string.rs before commit 5b7f338): two strings in the
+same quote style were compared by raw text only: `"a" == "\\61 "` was false although both are `==`
+to the unquoted `a`; the code today (= specification) compares the unquoted text as well. -/
+theorem strEq_sameQuotes_raw_old :
+    V.eq asisOld env0 (.str [97] .dbl) (.str [92, 54, 49, 32] .dbl) = false
+    ∧ V.eq asisOld env0 (.str [97] .dbl) (.str [97] .none) = true
+    ∧ V.eq asisOld env0 (.str [97] .none) (.str [92, 54, 49, 32] .dbl) = true
+    ∧ V.eq Val.spec env0 (.str [97] .dbl) (.str [92, 54, 49, 32] .dbl) = true := by
   decide +kernel
 
 /-! ## `!=` -/
@@ -169,9 +179,10 @@ example : (V.map [(.str [97] .none, .list [.num one 0, .str [120] .dbl] .space f
     ∧ (V.map [(.str [97] .none, .list [.num one 0, .str [120] .dbl] .space false),
       (.color one ⟨2, 1⟩ ⟨3, 1⟩ one, .null)] : V XRat).noArgList = true := by decide +kernel
 
-/-- REFUTATION (flag `argListNeverEqual`): an argument list is not `==` to itself today. -/
+/-- REFUTATION (flag `argListNeverEqual`, the code before commit 2fec817): an argument list was not
+`==` to itself. -/
 theorem arglist_asis_not_refl :
-    V.eq asis env0 (.arglist [.num one 0]) (.arglist [.num one 0]) = false
+    V.eq { argListNeverEqual := true } env0 (.arglist [.num one 0]) (.arglist [.num one 0]) = false
     ∧ V.eq Val.spec env0 (.arglist [.num one 0]) (.arglist [.num one 0]) = true := by decide +kernel
 
 /-- The NaN exemption is needed: NaN is not equal to itself in the specification either. -/
@@ -187,16 +198,86 @@ def holds : RelRes → Bool
   | .bool b => b
   | _ => false
 
-/-- For two numbers whose comparison is defined (`Numeric::partial_cmp` is `Some`), exactly one
-of `a < b`, `a == b`, `a > b` holds — for every flag setting, since the three operators are
-read off the same `partial_cmp`. -/
-theorem trichotomy (q : ValQuirks) (env : Env ν) (x : ν) (ux : Nat) (y : ν) (uy : Nat) (o : Ordering)
+/-- For two numbers that can be compared — same unit (or both unitless) or two convertible units,
+`Numeric::partial_cmp` defined (no NaN) — exactly one of `a < b`, `a == b`, `a > b` holds
+(specification: the order operators look at the numbers only).  `a`, `b` range over both kinds
+of number values (`calculated` flag set or not).  A unitless number against a number with a unit
+is excluded, as in Sass itself: `1 < 1px`, `1 == 1px`, `1 > 1px` are all false. -/
+theorem trichotomy (q : ValQuirks) (hq : q.ordCalcFlag = false) (env : Env ν) (a b : V ν)
+    (x : ν) (ux : Nat) (ca : Bool) (y : ν) (uy : Nat) (cb : Bool)
+    (ha : a.asNumber = some (x, ux, ca)) (hb : b.asNumber = some (y, uy, cb))
+    (hk : ux = uy ∨ (ux ≠ 0 ∧ uy ≠ 0)) (hcomp : comparable env ux uy = true) (o : Ordering)
     (h : numericCmp q env x ux y uy = some o) :
-    exactlyOne (holds (V.rel q env .lt (.num x ux) (.num y uy)))
-      (holds (V.rel q env .eq (.num x ux) (.num y uy)))
-      (holds (V.rel q env .gt (.num x ux) (.num y uy))) = true := by
-  simp only [V.rel, holds, V.eq, numericEq, ordHolds, h]
+    exactlyOne (holds (V.rel q env .lt a b)) (holds (V.rel q env .eq a b)) (holds (V.rel q env .gt a b)) = true := by
+  have he : V.eq q env a b = numericEq q env x ux y uy := by
+    cases a <;> simp [V.asNumber] at ha <;> cases b <;> simp [V.asNumber] at hb <;>
+      simp [V.eq, ha, hb]
+  have hn : ¬ (ux ≠ uy ∧ (ux = 0 ∨ uy = 0)) := by
+    rintro ⟨h1, h2⟩
+    rcases hk with hk | hk
+    · exact h1 hk
+    · rcases h2 with h2 | h2
+      · exact hk.1 h2
+      · exact hk.2 h2
+  simp only [V.rel, ha, hb, hq, Bool.false_eq_true, if_false, holds, he, numericEq, ordHolds, h, hcomp,
+    Bool.not_true, Bool.and_false, if_neg hn]
   cases o <;> decide
+
+/-- PARTIAL (the code today, flag `ordCalcFlag`): trichotomy holds when both numbers carry the same
+`calculated` flag (two literals/variables/arithmetic results, or two `calc()` results). -/
+theorem trichotomy_partial (q : ValQuirks) (env : Env ν) (a b : V ν)
+    (x : ν) (ux : Nat) (c : Bool) (y : ν) (uy : Nat)
+    (ha : a.asNumber = some (x, ux, c)) (hb : b.asNumber = some (y, uy, c))
+    (hk : ux = uy ∨ (ux ≠ 0 ∧ uy ≠ 0)) (hcomp : comparable env ux uy = true) (o : Ordering)
+    (h : numericCmp q env x ux y uy = some o) :
+    exactlyOne (holds (V.rel q env .lt a b)) (holds (V.rel q env .eq a b)) (holds (V.rel q env .gt a b)) = true := by
+  have he : V.eq q env a b = numericEq q env x ux y uy := by
+    cases a <;> simp [V.asNumber] at ha <;> cases b <;> simp [V.asNumber] at hb <;>
+      simp [V.eq, ha, hb]
+  have hn : ¬ (ux ≠ uy ∧ (ux = 0 ∨ uy = 0)) := by
+    rintro ⟨h1, h2⟩
+    rcases hk with hk | hk
+    · exact h1 hk
+    · rcases h2 with h2 | h2
+      · exact hk.1 h2
+      · exact hk.2 h2
+  simp only [V.rel, ha, hb, holds, he, numericEq, ordHolds, h, flagThen, hcomp, Bool.not_true, Bool.and_false,
+    Bool.false_eq_true, if_false, if_neg hn]
+  cases o <;> cases q.ordCalcFlag <;> simp [exactlyOne]
+
+/-- the unit hypotheses are met: same unit is comparable for every table -/
+example (env : Env XRat) : comparable env 1 1 = true ∧ ((1 : Nat) = 1 ∨ ((1 : Nat) ≠ 0 ∧ (1 : Nat) ≠ 0)) := by
+  simp [comparable]
+
+/-- unitless against a unit: the comparison is defined, yet none of `<`, `==`, `>` holds when
+the values are equal (Sass semantics, and why the hypothesis `hk` is there) -/
+theorem unitless_vs_unit_no_trichotomy :
+    V.rel Val.spec env0 .lt (.num one 0) (.num one 1) = .bool false
+    ∧ V.rel Val.spec env0 .eq (.num one 0) (.num one 1) = .bool false
+    ∧ V.rel Val.spec env0 .gt (.num one 0) (.num one 1) = .bool false
+    ∧ V.rel Val.spec env0 .le (.num one 0) (.num one 1) = .bool true := by
+  decide +kernel
+
+/-- order operators on numbers with incompatible units are an error (specification = code today) -/
+theorem incomparable_is_error :
+    V.rel Val.spec env0 .lt (.num one 1) (.num one 12) = .error
+    ∧ V.rel Val.spec env0 .eq (.num one 1) (.num one 12) = .bool false := by
+  decide +kernel
+
+/-- the hypothesis of `trichotomy_partial` is met by two ordinary numbers -/
+example : (V.num one 0).asNumber = some (one, 0, true) ∧ (V.num (⟨2, 1⟩ : XRat) 0).asNumber = some (⟨2, 1⟩, 0, true) :=
+  ⟨rfl, rfl⟩
+
+/-- REFUTATION (flag `ordCalcFlag`, the code today): `calc(1px) < 1px` and `calc(1px) == 1px` are
+both true (and `1px > calc(1px)`): the derived ordering of `Value::Numeric(n, calculated)` falls
+back to the flag when the numbers are equal.  The specification gives `==` only. -/
+theorem calc_flag_breaks_trichotomy :
+    V.rel asis env0 .lt (.numAtomic one 1) (.num one 1) = .bool true
+    ∧ V.rel asis env0 .eq (.numAtomic one 1) (.num one 1) = .bool true
+    ∧ V.rel asis env0 .gt (.num one 1) (.numAtomic one 1) = .bool true
+    ∧ V.rel Val.spec env0 .lt (.numAtomic one 1) (.num one 1) = .bool false
+    ∧ V.rel Val.spec env0 .eq (.numAtomic one 1) (.num one 1) = .bool true := by
+  decide +kernel
 
 /-- … and conversely: when the comparison is undefined none of the three holds. -/
 theorem no_order_when_undefined (q : ValQuirks) (env : Env ν) (x : ν) (ux : Nat) (y : ν) (uy : Nat)
@@ -204,7 +285,8 @@ theorem no_order_when_undefined (q : ValQuirks) (env : Env ν) (x : ν) (ux : Na
     holds (V.rel q env .lt (.num x ux) (.num y uy)) = false
     ∧ holds (V.rel q env .eq (.num x ux) (.num y uy)) = false
     ∧ holds (V.rel q env .gt (.num x ux) (.num y uy)) = false := by
-  simp [V.rel, holds, V.eq, numericEq, ordHolds, h]
+  simp only [V.rel, V.asNumber, V.eq, numericEq, ordHolds, h, flagThen]
+  cases q.cmpOldUnitRules <;> cases comparable env ux uy <;> cases q.ordCalcFlag <;> simp [holds]
 
 theorem ieeeCmp_some (L : NumCmpLaws ν) (x y : ν) (hx : isNaN x = false) (hy : isNaN y = false) :
     ieeeCmp x y ≠ none := by
